@@ -187,7 +187,8 @@ class Run:
         self.chain = {}          # tid -> pids whose step_until_terminated() is active in that task, innermost last
         self.interrupted = {}    # pid -> state value it was left in when a cancellation hit its step
         self.absorbed = []       # class names of what the `except` clauses of inline awaits absorbed
-        self.max_inline = 0
+        self.max_inline = 0      # deepest chain of inline awaits in one task
+        self.inline_depth = {}
         self.classes = [make_class(self, k) for k in range(len(scn['classes']))]
         self.loop = CtlLoop(self.decide)
 
@@ -502,7 +503,8 @@ async def interp_async(run, proc, code, k0, k1, expect, tid):
         elif act[0] == 'i':
             child = run.instantiate(int(act[1:]), proc._verif_pid)
             run.set_stepper(child._verif_pid, tid)
-            run.max_inline = max(run.max_inline, len(run.chain[tid]))
+            run.inline_depth[tid] = run.inline_depth.get(tid, 0) + 1
+            run.max_inline = max(run.max_inline, run.inline_depth[tid])
             try:
                 await child.step_until_terminated()     # inline: the child's steps run in THIS task and context
             except ABSORBED as e:
@@ -510,6 +512,7 @@ async def interp_async(run, proc, code, k0, k1, expect, tid):
                 run.rec(proc, 'absorbed', expect)
             finally:
                 run.chain[tid].pop()
+                run.inline_depth[tid] -= 1
             run.rec(proc, 'iret', expect)
         else:
             do_act(run, proc, act, expect, tid)
